@@ -10,6 +10,7 @@ import (
 	"encoding/hex"
 	"errors"
 	"fmt"
+	"net"
 	"net/http"
 	"os"
 	"sort"
@@ -486,6 +487,11 @@ func (c16) Run(e *Env) {
 				switch e.Weighted("write-outcome", []int{4, 2, 1}) {
 				case 1:
 					o = WriteOutcome{N: 0, Err: errWriteFailed}
+					if e.Chance(1, 3) {
+						// the peer stopped reading and the write deadline ran out: an error of the timeout class
+						o.Err = &net.OpError{Op: "write", Net: "tcp", Err: os.ErrDeadlineExceeded}
+						e.Probe("write-timeout")
+					}
 					fault("write-error")
 					e.Probe("write-error")
 					lost = append(lost, lostOp{cwr.At, wb.step.Load(), "write"})
